@@ -774,6 +774,14 @@ def oracle_request(ctx, eng, P, step, resp, rows0, dump0, dump1, notfound_tpl, r
         elif row[1] != user:
             report({'class': 'history', 'fails': 'owner-not-creator'}, {'uid': u, 'row': row, 'identity': [user, groups]},
                    'object %s created by %r has owner %r' % (u, user, row[1]))
+    # ... and are governed by exactly the policy name the creator asked for (character for character)
+    for it, r in zip(items, resp['items']):
+        if r['status'] == 'SUCCESS':
+            for (nu, nt, npol) in new_objects(it, r):
+                if nu in rows1 and rows1[nu][2] != npol:
+                    report({'class': 'history', 'fails': 'policy-name-not-requested'},
+                           {'uid': nu, 'requested': npol, 'stored': rows1[nu][2], 'identity': [user, groups], 'item': it},
+                           'object %s was created under policy %r but is stored under policy %r' % (nu, npol, rows1[nu][2]))
 
 
 # ---------------------------------------------------------------------------- running a history
@@ -793,7 +801,17 @@ def run_history(ctx, P, steps, want_case=True, count=False, P_engine=None, trans
 
         def unsuitable(u, row):
             return u in pair_made or row[0] not in suitable_types
+        creators = {}                     # uid -> identity that created it, kept by the harness (not read back from the store)
         for si, step in enumerate(steps):
+            if step.get('restart'):
+                # a new engine object on the same database: nothing about any object may differ, and the creators stay the owners
+                eng.restart()
+                d = eng.dump()
+                if d != dump0:
+                    viol.append(({'class': 'history', 'fails': 'restart-changed-store'}, {'step': si}, 'restarting the engine changed the data store', si))
+                dump0 = d
+                log.append([{'restart': True}])
+                continue
             rows0 = rows_of(dump0)
             version = tuple(step['version'])
             items = [build_item(it, version) for it in step['items']]
@@ -811,6 +829,16 @@ def run_history(ctx, P, steps, want_case=True, count=False, P_engine=None, trans
                 if it['k'] == 'create_key_pair' and r['status'] == 'SUCCESS':
                     pair_made.update(n[0] for n in new_objects(it, r))
             log.append([{k2: r[k2] for k2 in ('op', 'status', 'reason', 'message')} for r in resp['items']])
+            for it, r in zip(step['items'], resp['items']):
+                if r['status'] == 'SUCCESS':
+                    for n in new_objects(it, r):
+                        creators[n[0]] = step['user']
+            for u, row in rows_of(dump1).items():
+                if u in creators and row[1] != creators[u]:
+                    viol.append(({'class': 'history', 'fails': 'owner-not-creator'},
+                                 {'uid': u, 'created_by': creators[u], 'owner_column': row[1], 'after_step': si},
+                                 'object %s was created by %r but its owner is %r' % (u, creators[u], row[1]), si))
+                    break
             if want_case or count:
                 rows_run = dict(rows0)
                 c_items, c_obs = [], []
@@ -1043,6 +1071,47 @@ def shared_values_corpus():
     return [h]
 
 
+def identity_corpus():
+    """Identity strings and policy names at and beyond the column widths of the data store (49/50/51/64/255/256
+    characters), identities that are prefixes / suffixes / case variants / whitespace variants of each other, each
+    creating an owner-only key and then trying everybody else's, before and after a restart on the same database."""
+    def st(user, items):
+        return {'user': user, 'groups': None, 'version': [1, 2], 'cont': False, 'items': items}
+    base = 'svc-payments-gateway.production.eu-west-1.corp.example.org.and.some.more.'
+    base = (base * 5)
+    users = [base[:49], base[:50], base[:51], base[:64], base[:255], base[:256],
+             'Alice', 'alice', 'alice ', ' alice', 'alic', 'lice', 'ALICE']
+    h, uid = [], 0
+    pols = [None, LONG_POL[:49], LONG_POL[:50], LONG_POL[:51], LONG_POL[:64]]
+    for k, u in enumerate(users):
+        h.append(st(u, [{'k': 'create', 'pol': pols[k % len(pols)]}]))
+    n = len(users)
+    for phase in (0, 1):
+        if phase == 1:
+            h.append({'restart': True})
+        for k, u in enumerate(users):
+            for j in (k, (k + 1) % n, (k - 1) % n, (k + 6) % n):          # own key, the neighbours (prefix / variant), one far away
+                for kind in ('get', 'get_attributes'):
+                    h.append(st(u, [{'k': kind, 'uid': str(j + 1)}]))
+            h.append(st(u, [{'k': 'locate', 'type': None}]))
+    for k, u in enumerate(users[:6]):
+        h.append(st(users[(k + 1) % 6], [{'k': 'destroy', 'uid': str(k + 1)}]))
+        h.append(st(u, [{'k': 'destroy', 'uid': str(k + 1)}]))
+    return [h]
+
+
+LONG_POL = 'policy-for-the-payments-team.with-a-rather-long-name.' * 3
+
+
+def identity_document(rng):
+    """policies whose names differ only beyond the 49th / 50th / 51st character, with different permissions"""
+    doc = random_policy_document(rng)
+    perms = ['ALLOW_ALL', 'ALLOW_OWNER', 'DISALLOW_ALL', 'ALLOW_OWNER']
+    for n, perm in zip((49, 50, 51, 64), perms):
+        doc[LONG_POL[:n]] = {'preset': {t.name: {op.name: perm for op in POLICY_OPS} for t in TYPES}}
+    return doc
+
+
 def locate_corpus():
     """Two/three identities creating objects of the same (policy, type) in alternating order, then Locate by each:
     plain, filtered, with offset/maximum.  (An owner-blind or order-dependent listing shows up here.)"""
@@ -1142,6 +1211,10 @@ def histories(ctx):
         plan.append((Pc, Pc_engine, docc, h, 'indirect-corpus-%d' % k))
     for k, h in enumerate(shared_values_corpus()):
         plan.append((Pc, Pc_engine, docc, h, 'shared-values-corpus-%d' % k))
+    doci = identity_document(ctx.subrng('identity-corpus'))
+    Pi, Pi_engine = load_document(ctx, doci)
+    for k, h in enumerate(identity_corpus()):
+        plan.append((Pi, Pi_engine, doci, h, 'identity-corpus-%d' % k))
     for k in range(n_hist):
         doc = random_policy_document(rng)
         P, P_engine = load_document(ctx, doc)
